@@ -15,6 +15,7 @@ pub struct Tolerance {
 impl Tolerance {
     /// Create a new tolerance zone with the given nominal value and bounds, without checking
     /// that the bounds are valid. You must ensure that `lower` <= `upper`.
+    #[cfg_attr(kani, kani::ensures(|r: &Tolerance| crate::verif_kani::tolerance::post_new_unchecked(lower, upper, r)))]
     pub fn new_unchecked(lower: f64, upper: f64) -> Self {
         Self { lower, upper }
     }
@@ -22,6 +23,7 @@ impl Tolerance {
     /// Create a new tolerance zone with the given nominal value and bounds, checking that the
     /// bounds are valid. Returns an error if the bounds are not valid. The bounds are valid if
     /// `lower` <= `upper`.
+    #[cfg_attr(kani, kani::ensures(|r: &Result<Tolerance>| crate::verif_kani::tolerance::post_try_new(lower, upper, r)))]
     pub fn try_new(lower: f64, upper: f64) -> Result<Self> {
         if lower <= upper {
             Ok(Self { lower, upper })
@@ -53,6 +55,9 @@ impl Tolerance {
     /// assert_eq!(zone.lower, 1.0);
     /// assert_eq!(zone.upper, 3.0);
     /// ```
+    #[cfg_attr(kani, kani::requires(crate::verif_kani::tolerance::pre_symmetrical(center, half_width)))]
+    #[cfg_attr(kani, kani::ensures(|r: &Tolerance| crate::verif_kani::tolerance::post_symmetrical(center, half_width, r)))]
+    #[cfg_attr(kani, kani::ensures(|r: &Tolerance| crate::verif_kani::tolerance::post_symmetrical_ordered(center, half_width, r)))]
     pub fn symmetrical(center: f64, half_width: f64) -> Self {
         Self {
             lower: center - half_width.abs(),
@@ -61,17 +66,24 @@ impl Tolerance {
     }
 
     /// Returns true if the given value is within the tolerance zone
+    #[cfg_attr(kani, kani::ensures(|r: &bool| crate::verif_kani::tolerance::post_conforms(self, x, *r)))]
     pub fn conforms(&self, x: f64) -> bool {
         x >= self.lower && x <= self.upper
     }
 
     /// Returns the size of the tolerance zone (upper - lower)
+    #[cfg_attr(kani, kani::requires(crate::verif_kani::tolerance::pre_size(self)))]
+    #[cfg_attr(kani, kani::ensures(|r: &f64| crate::verif_kani::tolerance::post_size(self, *r)))]
+    #[cfg_attr(kani, kani::ensures(|r: &f64| crate::verif_kani::tolerance::post_size_sign(self, *r)))]
     pub fn size(&self) -> f64 {
         self.upper - self.lower
     }
 
     /// Returns the center of the tolerance zone, which is the value equidistant from the lower
     /// and upper bounds
+    #[cfg_attr(kani, kani::requires(crate::verif_kani::tolerance::pre_center(self)))]
+    #[cfg_attr(kani, kani::ensures(|r: &f64| crate::verif_kani::tolerance::post_center(self, *r)))]
+    #[cfg_attr(kani, kani::ensures(|r: &f64| crate::verif_kani::tolerance::post_center_inside(self, *r)))]
     pub fn center(&self) -> f64 {
         (self.upper + self.lower) / 2.0
     }
